@@ -23,7 +23,9 @@ PROOFS = ["proofs/RaceProofs.v", "proofs/RaceHBProofs.v", "lib/Race.v", "lib/Rac
           "models/RaceWheel.v", "proofs/RaceWheelProofs.v",
           # the cachex step model (CacheSteps.v, the machine C04's call-steps stream steps against the code) labelled
           "models/RaceCache.v", "proofs/RaceCacheMon.v", "proofs/RaceCacheStruct.v", "proofs/RaceCacheInv.v",
-          "proofs/RaceCacheGen.v", "proofs/RaceCacheCases.v", "proofs/RaceCacheProofs.v"]
+          "proofs/RaceCacheGen.v", "proofs/RaceCacheCases.v", "proofs/RaceCacheProofs.v",
+          # ants task / taskx callback task: labelled result-publication protocols (any attempts, late handlers)
+          "models/RaceTasks.v", "proofs/RaceTasksProofs.v"]
 
 
 def coq_table():
@@ -140,7 +142,8 @@ def run(chk):
         "model step emits is a transcription of the source, cross-checked by the access-table rows of queue.go / wait_close.go / wheel.go / "
         "cache_impl.go / future.go and, for cachex, by c18_cache_labels_match_sites against the yield sites; the "
         "step-by-step tie of those models to the code is C01/C02, C03/C04, C09, and the C04 stream call-steps for cachex); "
-        "ants Pool / Task and taskx.Queue: protocol instances and the detector only; other fields only by the detector"]
+        "ants Task and taskx callback task: labelled protocol machines (models/RaceTasks.v: any number of attempts, late handlers, Get2 callers; "
+        "a protocol-level reading of task_callback_ants.go / task_callback.go, not a stepped model) and the detector; other fields only by the detector"]
     chk.assumptions = ["atomic operations, mutexes, WaitGroups and channels synchronise as the Go memory model says",
                        "the components are used through their public API as the stress clients do"]
     chk.cov["rule"] = ("(1) one case per function row of the access table (synchronisation fingerprint regenerated from the source vs the row stored in RaceInst.v); "
